@@ -19,6 +19,21 @@ claimed = {
    note="Trusted: descriptor accounting at the seam (every inotify_init1/os.NewFile/Close of the back end is rewritten to vsys); kernel watches die with the instance descriptor. 'Thousands of cycles' follows because the state after one create/close cycle equals the initial state (fixed point).",
    technique="stateless model checking: exhaustive schedule and init-fault enumeration with a resource-accounting oracle"),
 }
+E4 = "E4 vxgen+vpure (exhaustive enumeration of complete finite input domains against independent references)"
+claimed.update({
+ "C15": dict(engine=E4, design="5 (C15), 2 (E4)",
+   text="Every input of every translation table is enumerated, none sampled: all 2^16 combinations of the 12 inotify event bits plus ISDIR/IGNORED/UNMOUNT/Q_OVERFLOW through the real newEvent; all 2^9 operation subsets x {follow, no-follow} through a real AddWith on the real kernel with the resulting kernel-side mask and inode read back from /proc/self/fdinfo; all 2^11 kqueue fflags x link-name present/absent and the subscribed note set; all 2^13 Windows masks through newEvent and toWindowsFlags, all action codes 0..8 through toFSnotifyFlags and their composition; xSupports of all four back ends over all 2^9 subsets. Each against an independently written reference table (union-of-parts by construction).",
+   note="kqueue/Windows/FEN functions are extracted textually from the working tree (vxgen) and compiled against constants parsed from golang.org/x/sys v0.13.0; if a change makes them depend on other back-end code the extraction fails as an engine error, not as a verdict. The request-side reference is the documented per-operation flag set.",
+   technique="exhaustive input-space enumeration (depth-1 bounded model checking) against a reference table"),
+ "C16": dict(engine=E4, design="5 (C16), 2 (E4)",
+   text="Op.Has and Event.Has over the whole stated domain squared (quick: the 2^9 defined-bit values plus every single undefined bit and all-ones patterns; thorough: all 2^16 x 2^16 pairs = 4.3e9) against set intersection; Op.String over all 2^16 low values plus every defined subset x every high bit against a reference rendering whose order is taken from the rendering of the full set (so any fixed order passes), with injectivity on the 512 defined subsets and '[no events]' iff no defined bit; Event.String over 13 names (empty, quotes, newline, invalid UTF-8, NUL, 255 bytes, containing the arrow) x 13 old names x 12 op values.",
+   note="Names of operations are taken from the documentation (CREATE ... CLOSE_READ); spacing inside Event.String is not constrained, content and order are.",
+   technique="exhaustive input-space enumeration against an independent reference"),
+ "C20": dict(engine=E4, design="5 (C20), 2 (E4)",
+   text="Diff is called on all ordered pairs of line sequences over {a, b, c, empty line} up to length 4 (quick) / 5 (thorough) in three whitespace variants, and on every two-letter sequence of length 7..10 (11) against all its single-line edits plus pairs of edits at opposite ends (separate hunks); the output is parsed, header ranges are checked against counted body lines and positions, leading/trailing context is bounded by 3, and the hunks are applied to the first text and compared with the second; empty output iff equal after TrimSpace. DiffMatch is called on all templates of <=3 tokens over {a, ., %(ANY), %(ANY 2), %(NUMBER), %(NUMBER 2), %(YEAR), newline} x all texts of <=3 (4) atoms and compared with an independent backtracking matcher.",
+   note="diff.go is copied verbatim from the working tree. The parser accepts both the standard one-character markers and this implementation's six-character markers.",
+   technique="exhaustive enumeration of input pairs up to a length bound with an apply-the-diff oracle"),
+})
 NA_REASON = "check not built yet (work in progress; DESIGN.md section 5 gives the planned decision procedure)"
 
 def main():
@@ -35,6 +50,8 @@ def main():
         "add_only": True,
       },
       "engines": [
+        {"name": "E4", "path": "cmd/vxgen cmd/vpure", "serves_properties": ["C15", "C16", "C20"],
+         "kind_free_text": "extraction of pure functions from the working tree + exhaustive enumeration of their finite input domains against independent references"},
         {"name": "E1", "path": "engine/vinst engine/vsched engine/vsys harness", "serves_properties": sorted(k for k, v in claimed.items() if v["engine"] == E1),
          "kind_free_text": "source-to-source instrumentation of the working tree + cooperative scheduler + preemption-bounded DFS (iterative context bounding), 16 worker processes"},
       ],
